@@ -272,6 +272,9 @@ def check_c02(ctx):
     # a range written with a blank-separated unit: without RANGE it is one text value whether ADVANCED_UNITS is on or not
     for t in ["@flour{2-3 kg}\n", "Add @milk{1-2 cups} slowly\n", "@salt{1/2-1 tsp}\n", "@x{2-3 large}\n", "@y{ 1 - 2 g } and @z{1-2}\n"]:
         conv_docs.append(dict(text=t, ext=[], conv="bundled", lacking=EXT_BITS["RANGE"], uses=["RANGE", "ADVANCED_UNITS"], src="range+unit"))
+    # modifier characters right after the marker: without MODIFIERS (and INTERMEDIATE, which implies it) they start the name
+    for t in ["@flour{1} and @&flour{100%g}\n", "#&pan{} and #?lid{}\n", "@?salt{} @+a{} @-b{}\n", "@@x{} ~&rest{5%min}\n", "@&(1)dough{} well\n"]:
+        conv_docs.append(dict(text=t, ext=[], conv="bundled", lacking=EXT_BITS["MODIFIERS"] | EXT_BITS["INTERMEDIATE"], uses=["MODIFIERS"], src="modifier-chars"))
     pin = os.path.join(ctx.work, "sub_in.ndjson")
     pout = os.path.join(ctx.work, "sub_obs.ndjson")
     psum = os.path.join(ctx.work, "sub_sum.ndjson")
